@@ -7,7 +7,7 @@
    libvm_execute_build_in) and the scanner's pending string buffer (scanner.l `string_value`, left behind by an
    input that ends inside a literal) — through a history of compiles, calls and host arithmetic.
    PROVED: under the hypothesis `reinitialises` (every tested flag is cleared first; the opening quote always
-   starts a new buffer) every compile and every call of any history gives what it gives in a fresh process;
+   starts a new buffer, or the end of the input inside a literal frees it) every compile and every call of any history gives what it gives in a fresh process;
    the hypothesis is necessary (a history exists that shows the difference as soon as it fails).
    TIE: checks/c15.py reads the two masks of back/libvm.c and the opening-quote rule of front/scanner.l from
    the tree (policy_measured) and checks the hypothesis behaviourally on the real code: the host raises each flag
@@ -48,9 +48,14 @@ Proof. exact ApiGlobalProofs.scan_literals_independent. Qed.
 Print Assumptions scan_literals_independent_of_pending_buffer.
 
 Theorem eof_inside_literal_leaves_text :
-  forall pol c d, snd (compile_literals pol None [Quote; Ch c; Ch d]) = Some [c; d].
+  forall pol c d, eof_frees pol = false -> snd (compile_literals pol None [Quote; Ch c; Ch d]) = Some [c; d].
 Proof. exact ApiGlobalProofs.eof_inside_literal_leaves_text. Qed.
 Print Assumptions eof_inside_literal_leaves_text.
+
+Theorem compile_leaves_nothing_pending :
+  forall pol, eof_frees pol = true -> forall src, snd (compile_literals pol None src) = None.
+Proof. exact ApiGlobalProofs.compile_leaves_nothing_pending. Qed.
+Print Assumptions compile_leaves_nothing_pending.
 
 Theorem scan_alloc_necessary :
   forall pol, alloc_always pol = false ->
@@ -61,14 +66,14 @@ Print Assumptions scan_alloc_necessary.
 (* any history: compiles (good or failing anywhere), calls on any VM, host arithmetic *)
 Theorem process_history_independent_of_process_state :
   forall fp sp, reinitialises fp sp = true ->
-  forall os p1 p2, fst (grun fp sp p1 os) = fst (grun fp sp p2 os).
+  forall os p1 p2, alike sp p1 p2 -> fst (grun fp sp p1 os) = fst (grun fp sp p2 os).
 Proof. exact ApiGlobalProofs.process_history_independent. Qed.
 Print Assumptions process_history_independent_of_process_state.
 
 Theorem process_history_as_in_fresh_process :
   forall fp sp, reinitialises fp sp = true ->
-  forall pre os p,
-    fst (grun fp sp p (pre ++ os)) = fst (grun fp sp p pre) ++ fst (grun fp sp fresh_process os).
+  forall pre os,
+    fst (grun fp sp fresh_process (pre ++ os)) = fst (grun fp sp fresh_process pre) ++ fst (grun fp sp fresh_process os).
 Proof. exact ApiGlobalProofs.process_history_as_in_fresh_process. Qed.
 Print Assumptions process_history_as_in_fresh_process.
 
@@ -79,10 +84,13 @@ Theorem process_reinit_necessary :
 Proof. exact ApiGlobalProofs.process_reinit_necessary. Qed.
 Print Assumptions process_reinit_necessary.
 
-(* ---- the hypotheses are satisfiable (the pinned tree's policies), the seeded policies violate them ---- *)
-Example c15b_pinned_policies_reinitialise : reinitialises pinned_fp pinned_scan = true.
+(* ---- the hypotheses are satisfiable (the tree's policies before and since a3bcc72), the seeded policies violate them ---- *)
+Example c15b_pinned_policies_reinitialise :
+  reinitialises pinned_fp pinned_scan = true /\ reinitialises pinned_fp current_scan = true.
 Proof. exact ApiGlobalProofs.pinned_policies_reinitialise. Qed.
-Example c15b_narrowed_mask_does_not : reinitialises narrowed_fp pinned_scan = false.
+Example c15b_narrowed_mask_does_not : reinitialises narrowed_fp current_scan = false.
 Proof. exact ApiGlobalProofs.narrowed_mask_does_not. Qed.
 Example c15b_guarded_allocation_does_not : reinitialises pinned_fp guarded_scan = false.
 Proof. exact ApiGlobalProofs.guarded_allocation_does_not. Qed.
+Example c15b_guarded_allocation_harmless_with_eof_rule : reinitialises pinned_fp guarded_eof_scan = true.
+Proof. exact ApiGlobalProofs.guarded_allocation_harmless_with_eof_rule. Qed.
